@@ -111,15 +111,18 @@ func (c *ReplayCache) IsDuplicate(data []byte, tag string) bool {
 			return true
 		}
 		return existingTag != tag
-	} else {
-		c.current[signature] = tag
 	}
 	if existingTag, ok := c.previous[signature]; ok {
+		// Keep the entry in the current generation under the tag it was
+		// first recorded with. Otherwise the next lookup with the new tag
+		// would not be reported as a duplicate.
+		c.current[signature] = existingTag
 		if existingTag == EmptyTag || tag == EmptyTag {
 			return true
 		}
 		return existingTag != tag
 	}
+	c.current[signature] = tag
 	return false
 }
 
